@@ -248,6 +248,19 @@ func (c *Ctx) accountLayouts() {
 		}
 	}
 	if f := c.mustFn(R, "liteclient", "ParseADNLAddress"); f != nil {
+		// the text handed to the length test and the decoder is the argument with at most the
+		// literal suffix ".adnl" removed (TrimSuffix; a cutset function would eat base32 digits)
+		var cut []string
+		for _, cl := range callsIn(f) {
+			q := callQName(cl.Common())
+			switch q {
+			case "strings.Trim", "strings.TrimRight", "strings.TrimLeft":
+				if len(cl.Common().Args) > 0 && strings.Join(leaves(cl.Common().Args[0]), ",") == "addr" {
+					cut = append(cut, q)
+				}
+			}
+		}
+		c.check(len(cut) == 0, R, "ParseADNLAddress applies no character-set trimming to the address text", f.Pos(), "suffix removed as a literal (TrimSuffix)", fmt.Sprintf("ParseADNLAddress trims its argument with %v, which takes a character SET: trailing base32 digits that occur in the set (a, d, n, l, .) are stripped from the address itself", cut))
 		rs := c.byteReads(f)
 		c.check(len(rs) == 1 && rs[0].how == "BE16" && rs[0].lo == "33", R, "ParseADNLAddress reads crc BE16 at [33:]", f.Pos(), fieldsString(rs), "ParseADNLAddress reads the checksum as "+fieldsString(rs)+", the writer stores it big-endian after the 33 bytes")
 		for _, cl := range callsTo(f, modPath+"/utils.Crc16") {
@@ -262,7 +275,7 @@ func (c *Ctx) accountLayouts() {
 		rs := c.byteReads(f)
 		c.check(len(rs) == 1 && rs[0].how == "BE64" && (rs[0].lo == "" || rs[0].lo == "0") && rs[0].hi == "8", R, "MatchAccountID prefix = BE64(Address[:8])", f.Pos(), fieldsString(rs), "MatchAccountID takes the account prefix as "+fieldsString(rs)+"; the shard prefix is the big-endian first 8 bytes of the hash")
 	}
-	c.floor(R, 32)
+	c.floor(R, 33)
 	c.floor(W, 8)
 }
 
